@@ -100,8 +100,22 @@ def twin_override(target_fn):
     return f
 
 
+def verus_fn_pattern(fn):
+    m = re.match(r'^<(\w+) as .*>::(\w+)$', fn)
+    if m:
+        return '%s::%s' % (m.group(1), m.group(2))
+    if fn.startswith('util::'):
+        return fn.split('::', 1)[1]
+    return fn
+
+
 def run_twin(unit, fn):
     safe = re.sub(r'[^A-Za-z0-9]+', '_', fn)
+    # fast path: verify only the twin function; fall back to the whole unit if Verus cannot single it out
+    r = vrun.run_unit(unit, REPO, ['--verify-root', '--verify-function', verus_fn_pattern(fn)], text_override=twin_override(fn), tag='vac_' + safe)
+    hit = [f for f in r.failures if f.fn == fn and f.kind == 'post' and re.match(r'^false\b', f.span_text)]
+    if hit:
+        return fn, 'ok', ''
     r = vrun.run_unit(unit, REPO, text_override=twin_override(fn), tag='vac_' + safe)
     if r.undecided and not r.failures:
         return fn, 'undecided', r.undecided
